@@ -23,12 +23,20 @@ func init() {
 					"x allow{none,[10.0.0.0/8],[2001:db8::/32,10.1.0.0/16]}; addresses = for every prefix in the configuration its first-1, first, last, last+1 address, as IPv4, IPv6 and IPv4-mapped IPv6, plus a non-TCP address. " +
 					"Level 1: the real Loader.Get result (secret, handler, error) for every (configuration, address) against the reference admission model. Level 2 (full server over the scripted network, one configuration per scope-order class): " +
 					"a refused connection is closed with zero bytes written and zero handler invocations; a served one answers a command authorization obfuscated with the bound scope's key under that key, grants it for a user of that scope " +
-					"and answers FAIL for a user that exists only in another scope. distinct_nontrivial = distinct (configuration, address) pairs where at least one filter or two scopes match",
+					"and answers FAIL for a user that exists only in another scope. Level 3 (engine E2): four overlapping-scope configurations are built and queried under the controlled scheduler, every schedule with <= 1 (quick) / 2 (thorough) deviations, so that any concurrency inside the loader's build cannot reorder scopes unnoticed. distinct_nontrivial = distinct (configuration, address) pairs where at least one filter or two scopes match",
 				Assumptions: []string{"containment is bitwise within an address family; IPv4-mapped IPv6 addresses are IPv4 (Go net semantics)", "a scope without users is skipped (the loader's documented rule)"}}
 		},
-		Workers: constInt(16, 16),
-		Run:     c13Run,
-		Replay:  c13Replay,
+		Workers:      constInt(16, 16),
+		SchedWorkers: constInt(4, 4),
+		Run: func(c *Ctx) {
+			if c.Param == "sched" {
+				schedRun(c)
+				return
+			}
+			c13Run(c)
+		},
+		Replay: c13Replay,
+		Post:   schedPost,
 	}
 }
 
